@@ -328,7 +328,12 @@ class FakeSnowflakeCursor:
                     self._conn.database_set = False
                     self._conn.schema_set = False
 
-                elif cmd == "DROP SCHEMA" and ident == self._conn.schema:
+                elif (
+                    cmd == "DROP SCHEMA"
+                    and ident == self._conn.schema
+                    # and it's in the current database, rather than a schema of the same name in another database
+                    and (not (schema := transformed.find(exp.Table)) or schema.catalog in ("", self._conn.database))
+                ):
                     self._conn.schema = None
                     self._conn.schema_set = False
 
